@@ -353,7 +353,7 @@ func genBad(r *rand.Rand, c *caseCtx) Step {
 		s.Single = false
 		s.Mut = "relative"
 	case 15: // name with odd characters
-		s.Name = Bs(c.names[0] + "x" + lib.Pick(r, []string{"{", "{a=", "}", "{a=b,a=c}", " ", "{=}", "\xff"}))
+		s.Name = Bs(c.names[0] + fmt.Sprintf("x%04x", r.Intn(65536)) + lib.Pick(r, []string{"{", "{a=", "}", "{a=b,a=c}", " ", "{=}", "\xff"}))
 		s.Mut = "oddname"
 	default: // trailing garbage after a valid binary body / text body without final newline
 		if binary {
@@ -756,5 +756,5 @@ func main() {
 	storage.VerifDisablePeriodicTasks()
 	go watchdog()
 	defer cleanupServer()
-	lib.Main(lib.Harness[Input]{Prop: "C16", Quick: 260, Thorough: 5000, Gen: gen, Enum: enum, Run: run})
+	lib.Main(lib.Harness[Input]{Prop: "C16", Quick: 420, Thorough: 5000, Gen: gen, Enum: enum, Run: run})
 }
